@@ -233,10 +233,14 @@ package task
 //@   ghostvar told bool = false
 //@   on aftercall (*roster).getByTaskId : inRoster = (result != nil)
 //@   on store task.Task.state : stored = true
-//@   on aftercall (*Task).GetParent : hasParent = (result != nil)
+//@   ghostvar asked bool = false
+//@   on aftercall (*Task).GetParent : hasParent = (result != nil) ; asked = true
 //@   on call .UpdateState : assert stored ; told = true
 //@   ensures inRoster ==> stored
 //@   ensures inRoster && hasParent ==> told
+// whether the role is told depends on the parent link alone (not on the task still being locked: executor-lost and
+// agent-lost tasks have their executor and agent ids blanked before this runs)
+//@   ensures inRoster ==> asked
 
 // executor / agent failure: every task of the failed executor or agent gets an ERROR + INACTIVE update
 //@ func (m *Manager) HandleExecutorFailed(e *event.ExecutorFailedEvent) (envs map[uid.ID]struct{})
